@@ -223,6 +223,18 @@ def run(tier, seed):
         if key not in seen:
             seen.add(key)
             violations.append(v)
+    # the runner reports the first 25 classes in detail: interleave the kinds of failure so that each
+    # (law, kind of observation) shows up early; within a kind the enumeration order (small first) is kept
+    groups = {}
+    for v in violations:
+        obs = v["sig"]["observed"]
+        kind = "error" if obs.startswith("error") else "missing" if obs == "missing" else "value"
+        groups.setdefault((v["sig"]["law"], kind, v["sig"].get("nested", "") != ""), []).append(v)
+    violations = []
+    while any(groups.values()):
+        for g in groups.values():
+            if g:
+                violations.append(g.pop(0))
     for fname, it in hangs:
         violations.append(
             {
